@@ -20,6 +20,11 @@ func main() {
 	switch os.Args[1] {
 	case "worker":
 		gen.WorkerMain()
+	case "replay":
+		if len(os.Args) < 3 {
+			usage()
+		}
+		os.Exit(replay(os.Args[2]))
 	case "check":
 		if len(os.Args) < 4 {
 			usage()
@@ -31,7 +36,7 @@ func main() {
 }
 
 func usage() {
-	fmt.Fprintln(os.Stderr, "usage: verif check <property> <quick|thorough>")
+	fmt.Fprintln(os.Stderr, "usage: verif check <property> <quick|thorough> | verif replay <file>")
 	os.Exit(2)
 }
 
